@@ -1,5 +1,7 @@
 import Swat4.Lemmas.GS1
 import Swat4.Lemmas.GS1Choice
+import Swat4.Lemmas.GS1Collect
+import Swat4.Lemmas.GS1Parse
 import Swat4.Spec.GS1Spec
 /-!
 # C08 — Status responses decode faithfully in every dialect, split and order
@@ -107,9 +109,202 @@ theorem best_response_perm (gamePort : Int) (arrivals arrivals' : List PortAnswe
       rw [foldl_compare_ver, foldl_compare_ver]
       exact hperm.foldl_eq' (by intro a _ b _ z; show max (max z _) _ = max (max z _) _; omega) _
 
+/-! ## reassembly: order/duplication independence, completion -/
+
+/-- the fragments `collectPayload` sees in a list of datagrams -/
+def fragsOf (frs : List Bytes) : List Fragment := frs.filterMap insp
+
+/-- duplicates carry identical content, all fragments are of one dialect, all finals agree on the
+fragment number: what a single (possibly repeating) well-formed sender produces -/
+def ConsistentDups (frs : List Bytes) : Prop := ConsistentFrags (fragsOf frs)
+
+theorem all_insp_perm {a b : List Bytes} (h : a.Perm b) :
+    a.all (fun r => (insp r).isSome) = b.all (fun r => (insp r).isSome) := by
+  rw [Bool.eq_iff_iff, List.all_eq_true, List.all_eq_true]
+  exact ⟨fun hh x hx => hh x (h.mem_iff.mpr hx), fun hh x hx => hh x (h.mem_iff.mp hx)⟩
+
+/-- **C08 (order and duplication independence).** Reassembly of a consistent set of datagrams
+gives the same result — payload, buffer capacity, dialect tag, or the same error class — in
+every arrival order. -/
+theorem collect_perm (a b : List Bytes) (h : a.Perm b) (hc : ConsistentDups a) :
+    collectPayload a = collectPayload b := by
+  unfold collectPayload
+  rw [collectLoop_eq, collectLoop_eq, all_insp_perm h,
+    foldl_step_perm _ _ (h.filterMap insp) hc]
+
+/-- duplicates do not matter either: delivering a datagram of a consistent stream once more
+changes nothing but the spare capacity of the buffer -/
+theorem collect_dup (a : List Bytes) (d : Bytes) (hd : d ∈ a) (hc : ConsistentDups (d :: a)) :
+    (collectPayload (d :: a)).isOk = (collectPayload a).isOk ∧
+      ∀ c c', collectPayload (d :: a) = .ok c → collectPayload a = .ok c' →
+        c.payload = c'.payload ∧ c.version = c'.version := by
+  have hperm : (d :: a).Perm (a ++ [d]) := by
+    have := (List.perm_append_comm (l₁ := [d]) (l₂ := a)); simpa using this
+  rw [collect_perm _ _ hperm hc]
+  unfold collectPayload
+  rw [collectLoop_eq, collectLoop_eq]
+  have hall : (a ++ [d]).all (fun r => (insp r).isSome) = a.all (fun r => (insp r).isSome) := by
+    rw [List.all_append]
+    by_cases h : a.all (fun r => (insp r).isSome) = true
+    · have := List.all_eq_true.mp h d hd
+      simp [h, this]
+    · simp [h]
+  rw [hall]
+  by_cases hok : a.all (fun r => (insp r).isSome) = true
+  · simp only [hok, if_true, Res.ok_bind]
+    have hd' : ∃ f, insp d = some f := Option.isSome_iff_exists.mp (List.all_eq_true.mp hok d hd)
+    obtain ⟨f, hf⟩ := hd'
+    rw [List.filterMap_append]
+    simp only [List.filterMap_cons, hf, List.filterMap_nil, List.foldl_append, List.foldl_cons, List.foldl_nil]
+    generalize hst : (a.filterMap insp).foldl CState.step CState.init = st
+    -- `f` was already folded in: stepping with it again leaves count, ordered and version as they are
+    have hfm : f ∈ fragsOf a := List.mem_filterMap.mpr ⟨d, hd, hf⟩
+    have hcons : ConsistentFrags (fragsOf a) := by
+      intro x hx y hy
+      exact hc x (by simp only [fragsOf, List.filterMap_cons, hf]; exact List.mem_cons_of_mem _ hx)
+        y (by simp only [fragsOf, List.filterMap_cons, hf]; exact List.mem_cons_of_mem _ hy)
+    -- move `f` to the end of `a`'s fragments
+    obtain ⟨pre, post, hsplit⟩ := List.append_of_mem hfm
+    have hp2 : (fragsOf a).Perm (pre ++ post ++ [f]) := by
+      rw [hsplit]
+      exact List.perm_middle.trans (List.perm_append_comm (l₁ := [f]) (l₂ := pre ++ post))
+    have hst2 : st = ((pre ++ post).foldl CState.step CState.init).step f := by
+      rw [← hst, show a.filterMap insp = fragsOf a from rfl, foldl_step_perm _ _ hp2 hcons, List.foldl_append]
+      rfl
+    generalize (pre ++ post).foldl CState.step CState.init = s0 at hst2
+    subst hst2
+    have hcount : ((s0.step f).step f).count = (s0.step f).count := by
+      simp only [CState.step]; split <;> rfl
+    have hord : ((s0.step f).step f).ordered = (s0.step f).ordered := by
+      simp only [CState.step]
+      generalize s0.ordered = m
+      induction m with
+      | nil => simp [insertKV]
+      | cons hd t ih => obtain ⟨k, v⟩ := hd; grind [insertKV]
+    have hver : ((s0.step f).step f).version = (s0.step f).version := rfl
+    simp only [CState.finish, hcount, hord, hver]
+    split
+    · exact ⟨rfl, fun c c' h1 _ => by cases h1⟩
+    · refine ⟨rfl, ?_⟩
+      intro c c' h1 h2
+      cases h1; cases h2
+      exact ⟨rfl, rfl⟩
+  · simp [hok, Res.isOk]
+
+/-- **C08 (completion).** Reassembly completes exactly when every datagram received so far
+inspects, a final fragment has been seen, and the number of distinct fragment numbers seen
+equals the (last) final fragment's number. -/
+theorem collect_complete_iff (frs : List Bytes) :
+    (collectPayload frs).isOk = true ↔
+      (∀ r ∈ frs, (insp r).isSome = true) ∧
+      ∃ n : Nat, lastFinal (fragsOf frs) = some (n : Int) ∧ distinctCount ((fragsOf frs).map (·.order)) = n := by
+  unfold collectPayload
+  rw [collectLoop_eq]
+  by_cases hall : frs.all (fun r => (insp r).isSome) = true
+  · have hall' : ∀ r ∈ frs, (insp r).isSome = true := List.all_eq_true.mp hall
+    simp only [hall, if_true, Res.ok_bind]
+    show ((fragsOf frs).foldl CState.step CState.init).finish.isOk = true ↔ _
+    have hcount : ((fragsOf frs).foldl CState.step CState.init).count = (lastFinal (fragsOf frs)).getD (-1) :=
+      foldl_step_count (fragsOf frs) CState.init
+    have hlen : ((fragsOf frs).foldl CState.step CState.init).ordered.length =
+        distinctCount ((fragsOf frs).map (·.order)) := by
+      rw [foldl_step_ordered]
+      have hs := foldl_insert_sorted (fragsOf frs) CState.init.ordered (by simp [CState.init, keysOf])
+      have hm := foldl_insert_mem (fragsOf frs) CState.init.ordered
+      rw [distinctCount_eq_of_sorted_cover _ _ hs (by intro x; rw [hm x]; simp [CState.init, keysOf])]
+      simp [keysOf]
+    generalize (fragsOf frs).foldl CState.step CState.init = st at hcount hlen ⊢
+    have hfin : st.finish.isOk = true ↔ ¬(st.count = -1 ∨ st.count ≠ (st.ordered.length : Int)) := by
+      unfold CState.finish
+      split <;> rename_i hh <;> simp [Res.isOk, hh]
+    rw [hfin, hcount, hlen]
+    cases hl : lastFinal (fragsOf frs) with
+    | none => simp
+    | some m =>
+      simp only [Option.getD_some]
+      constructor
+      · intro h
+        refine ⟨hall', distinctCount ((fragsOf frs).map (·.order)), ?_, rfl⟩
+        congr 1
+        omega
+      · rintro ⟨_, n, hn, hd⟩
+        cases hn
+        omega
+  · have : ¬ ∀ r ∈ frs, (insp r).isSome = true := fun h => hall (List.all_eq_true.mpr h)
+    simp [hall, this, Res.isOk]
+
+/-- **C08 (not before everything has arrived).** In a stream whose fragment numbers lie within
+`1..n` (`n` the final fragment's number), completion means that every number `1..n` has arrived:
+the query does not complete before the final fragment and all lower-numbered ones are there.
+(Without the bound the code can complete with a gap — numbers {1,3,4}, final 3 — which the
+model mirrors; such streams are outside the property's quantifier.) -/
+theorem collect_complete_all_arrived (frs : List Bytes) (h : (collectPayload frs).isOk = true) (n : Nat)
+    (hn : lastFinal (fragsOf frs) = some (n : Int))
+    (hb : ∀ f ∈ fragsOf frs, 1 ≤ f.order ∧ f.order ≤ n) :
+    ∀ i : Int, 1 ≤ i → i ≤ n → ∃ f ∈ fragsOf frs, f.order = i := by
+  obtain ⟨_, n', hn', hd⟩ := (collect_complete_iff frs).mp h
+  rw [hn] at hn'
+  have hnn : n = n' := by cases hn'; rfl
+  subst hnn
+  -- the sorted key list of the reassembly map
+  let ks := keysOf ((fragsOf frs).foldl (fun m f => insertKV f.order f.data m) [])
+  have hs : ks.Pairwise (· < ·) := foldl_insert_sorted (fragsOf frs) [] (by simp [keysOf])
+  have hm : ∀ x, x ∈ ks ↔ x ∈ (fragsOf frs).map (·.order) := by
+    intro x; rw [foldl_insert_mem]; simp [keysOf]
+  have hl : ks.length = n := by rw [← distinctCount_eq_of_sorted_cover _ ks hs hm]; exact hd
+  intro i h1 h2
+  have := sorted_full ks 1 hs (by
+    intro x hx
+    obtain ⟨f, hf, rfl⟩ := List.mem_map.mp ((hm x).mp hx)
+    have := hb f hf
+    omega) i h1 (by omega)
+  obtain ⟨f, hf, hfo⟩ := List.mem_map.mp ((hm i).mp this)
+  exact ⟨f, hf, hfo⟩
+
+/-! ## parameter parsing -/
+
+/-- a key/value list on the wire: `\k₁\v₁\k₂\v₂…` -/
+def render (kvs : List (Bytes × Bytes)) : Bytes := body (kvs.flatMap fun kv => [kv.1, kv.2])
+
+/-- **C08 (parse ∘ render).** `parseParams` recovers exactly the rendered pairs, in order, for all
+backslash-free names and values (empty ones included). -/
+theorem parse_render (kvs : List (Bytes × Bytes)) (h : ∀ kv ∈ kvs, noBsl kv.1 ∧ noBsl kv.2) :
+    parseParams (render kvs) = .ok (kvs.map fun kv => ⟨kv.1, kv.2⟩) := by
+  unfold render
+  rw [parseParams_body, pairUp_flat]
+  intro g hg
+  obtain ⟨kv, hkv, hg⟩ := List.mem_flatMap.mp hg
+  have := h kv hkv
+  simp only [List.mem_cons, List.not_mem_nil, or_false] at hg
+  rcases hg with rfl | rfl
+  · exact this.1
+  · exact this.2
+
+/-- fragments cut anywhere between fields reassemble: parsing the concatenation of the fragment
+bodies is parsing the whole field sequence (an odd trailing field is dropped) -/
+theorem parse_concat (chunks : List (List Bytes)) (h : ∀ ch ∈ chunks, ∀ g ∈ ch, noBsl g) :
+    parseParams (chunks.map body).flatten = .ok (pairUp chunks.flatten) := by
+  have hb : (chunks.map body).flatten = body chunks.flatten := by
+    induction chunks with
+    | nil => rfl
+    | cons c t ih =>
+      simp only [List.map_cons, List.flatten_cons, body_append]
+      rw [ih (fun ch hch => h ch (List.mem_cons_of_mem _ hch))]
+  rw [hb, parseParams_body]
+  intro g hg
+  obtain ⟨ch, hch, hg⟩ := List.mem_flatten.mp hg
+  exact h ch hch g hg
+
 end Swat4.C08
 
 /-- non-vacuity of `best_response`: two accepted answers, AdminMod then vanilla, game port 10480 -/
 example : Swat4.C08.acceptedOf 10480
     [⟨10481, ⟨[(Swat4.GS1.kHostport, [0x31, 0x30, 0x34, 0x38, 0x30])], [], [], .am⟩⟩,
      ⟨10482, ⟨[(Swat4.GS1.kHostport, [0x31, 0x30, 0x34, 0x38, 0x30])], [], [], .vanilla⟩⟩] ≠ [] := by decide
+
+/-- non-vacuity of `collect_perm`: the two GS1 fragments `\a\b\queryid\1` and `\c\d\queryid\2\final\` are consistent -/
+example : Swat4.C08.ConsistentDups
+    [[0x5c, 0x61, 0x5c, 0x62, 0x5c, 0x71, 0x75, 0x65, 0x72, 0x79, 0x69, 0x64, 0x5c, 0x31],
+     [0x5c, 0x63, 0x5c, 0x64, 0x5c, 0x71, 0x75, 0x65, 0x72, 0x79, 0x69, 0x64, 0x5c, 0x32, 0x5c, 0x66, 0x69, 0x6e, 0x61, 0x6c, 0x5c]] := by
+  unfold Swat4.C08.ConsistentDups Swat4.GS1.ConsistentFrags
+  decide
